@@ -7,7 +7,7 @@ from . import common as C
 
 TECHNIQUE = "static analysis: objective/report provenance agreement in get_critical_path (every reported per-line term is an edge weight of the graph handed to the longest-path routine and vice versa), accumulate-vs-overwrite check for stores keyed through the non-injective int(node id) map, terminal-latency coverage of every kernel line, weight-key agreement, total agreement between text and dict"
 EXPLANATION = (
-    "R1: dag_longest_path is given the attribute name every add_edge writes (a wrong key silently weighs every edge 1). R2: fractional load-node ids (line + 0.1) are produced in one place and every consumer that maps a node id to a kernel line goes through int(). R3: what is printed (the sum of latency_cp over the returned lines) is what is maximised: (a) every term stored into latency_cp is the `latency` attribute of an edge (s, d) of consecutive nodes of the path in the graph that was searched; (b) stores into latency_cp keyed through int(s) accumulate, and because the accumulated state lives on the instruction forms across calls a reset to 0 must exist and precede the accumulation (a load node and its instruction map to the same line); (c) the last instruction's latency is part of the maximised weight: every kernel line has an edge to the virtual sink, added unconditionally on every iteration over the kernel, whose weight is its latency (latency_wo_load when its load stage is a separate node), so the path is never shorter than any single instruction. R4: CriticalPath in the dict and the CP figure of the text are the same expression over get_critical_path(). R5: the returned lines are exactly the kernel lines on the path."
+    "R1: dag_longest_path is given the attribute name every add_edge writes (a wrong key silently weighs every edge 1). R2: fractional load-node ids (line + 0.1) are produced in one place and every consumer that maps a node id to a kernel line goes through int(). R3: what is printed (the sum of latency_cp over the returned lines) is what is maximised: (a) every term stored into latency_cp is the `latency` attribute of an edge (s, d) of consecutive nodes of the path in the graph that was searched; (b) stores into latency_cp keyed through int(s) accumulate, and because the accumulated state lives on the instruction forms across calls a reset to 0 must exist and precede the accumulation (a load node and its instruction map to the same line); (c) the last instruction's latency is part of the maximised weight: every kernel line has an edge to the virtual sink, added unconditionally on every iteration over the kernel, whose weight is its latency (latency_wo_load when its load stage is a separate node), so the path is never shorter than any single instruction. R4: CriticalPath in the dict and the CP figure of the text are the same expression over get_critical_path(). R5: the returned lines are exactly the kernel lines on the path. R8: where the CP cell of a line is selected by a value looked up in a per-line map (None for lines off the path), the cell formatter tests that value with `is None`, not by truthiness - an instruction of the path whose latency there is 0.0 (eliminated move) must still be marked."
 )
 NOT_DECIDED = "Equality with an independent longest-path computation on generated graphs (behavioural)."
 ASSUMPTIONS = ["networkx dag_longest_path maximises the sum of the given edge attribute", "the dependency graph is a DAG (checked by the code itself)"]
@@ -282,6 +282,13 @@ def run(ctx):
     C.embed(ctx, "C03", lambda sub: c03.flag_threading(sub, "R3"), "R7", "flag dependencies (C03-R3)",
             "the dependency graph in which the longest chain is searched lacks (or gains) the flag-dependency edges the user asked for, "
             "so the reported critical path is not the longest chain of the kernel's dependency graph", f.where())
+    # ------------------------------------------------------------------ R8 every instruction of the path is marked
+    from .c05 import lcd_cell_presence
+    ctx.rule("R8", "the CP column marks every instruction of the path, also one whose latency on the path is 0.0")
+    lcd_cell_presence(ctx, "R8", kinds=("CP",))
+    if not any(o.get("rule") == "R8" for o in ctx.obligations):
+        ctx.ok("R8", "the CP cell is not selected by a value looked up in a per-line map (presence is decided by the caller: C13-R1)",
+               ctx.func("Frontend._get_lcd_cp_ports").where())
     # ------------------------------------------------------------------ R4 totals
     ctx.rule("R4", "CP total: text and dict use the same expression over get_critical_path()")
     cv = ctx.func("Frontend.combined_view")
